@@ -168,6 +168,13 @@ func ptrVal(val reflect.Value) reflect.Value {
 	if val.Kind() == reflect.Ptr {
 		return val
 	}
+	if !val.CanAddr() {
+		// e.g. the values of a Go map held by value: hand out a pointer to a copy
+		// (ptrVal is only used to show a value to a custom converter)
+		ptr := reflect.New(val.Type())
+		ptr.Elem().Set(val)
+		return ptr
+	}
 	return val.Addr()
 }
 
